@@ -386,9 +386,23 @@ def run_c10(tier, seed):
     n_hist = 40 if tier == 'quick' else 200
     hists = hist_run.run_histories([seed * 104729 + 17 * k for k in range(n_hist)], max_steps=max_perm_len - 1)
     from . import impl
+    # scripted sets every permutation of which is tried: two roReplace messages (the later one wins, whatever the supply
+    # order), the same class several times with non-commuting effects, message IDs of different widths
+    X = lambda i: B.story(i, [B.item(i + '-1')])
+    scripted = [
+        ('two roReplace', [B.ro_doc([X('A'), X('B')], message_id='3'), B.ro_replace([X('R1'), X('R2')], message_id='20'), B.story_append([X('N')], message_id='100'),
+                           B.ro_replace([X('Q1')], message_id='1000'), B.story_insert('Q1', [X('M')], message_id='1001')]),
+        ('three roReplace', [B.ro_doc([X('A')], message_id='1'), B.ro_replace([X('R1')], message_id='9'), B.ro_replace([X('R2'), X('R3')], message_id='10'),
+                             B.ro_replace([X('R4')], message_id='11'), B.story_delete(['R4'], message_id='12')]),
+        ('deletes and appends interleaved', [B.ro_doc([X('A'), X('B')], message_id='8'), B.story_delete(['N'], message_id='9'), B.story_append([X('N')], message_id='10'),
+                                             B.story_delete(['N'], message_id='100'), B.story_append([X('N')], message_id='101')]),
+    ]
+    for name, trees in scripted:
+        mids = [int(TJ.child_text(t, 'messageID')) for t in trees]
+        hists.append({'seed': name, 'docs': [TJ.to_text(t) for t in trees], 'ids': mids, 'steps': []})
     for hi, h in enumerate(hists):
         docs = h['docs']
-        if hi % 2:
+        if hi % 2 and not isinstance(h['seed'], str):
             docs = with_create_id(docs, h['ids'], rng) or docs       # roCreate not the lowest message ID
         base = impl_collection(docs, True, False, via='strings')
         expect = (base['err'], base['reader_ids'], base['text'], base['run']['warns'] if base['run'] else None)
